@@ -409,7 +409,10 @@ def tolerance(O, case):
             scale *= mag(v)
     cells = ref.prod(case["shape"]) * 8
     tol = 64.0 * cells * EPS * scale
-    return tol if np.isfinite(tol) else float("inf")  # products of magnitudes beyond 1e308: everything overflows
+    # products of magnitudes beyond 1e308: everything overflows; products below 1e-308 are denormal, where a fused
+    # multiply-add rounds to the absolute grid 5e-324 in an order-dependent way: an absolute floor far below every
+    # normal number
+    return max(tol, 1e-300) if np.isfinite(tol) else float("inf")
 
 
 # --------------------------------------------------------------------------
